@@ -240,4 +240,58 @@ for ident, cls, b, e, const, rev in (('iter_fwd', IT, 'begin', 'end', False, Fal
     m.raw = TRAV % dict(cls=cls, obj='static_cast<const FS*>(o)->' if const else 'o->', b=b, e=e)
     m.call = '%s() .. %s()%s traversal' % (b, e, ' const' if const and not b.startswith('c') else '')
     OBS.append(m)
+
+# ---- iterator-taking overloads (kept in the shadow since the iterator classes are instantiated): an iterator argument is passed as
+# its index (npos = end()); P(i) is the position it designates
+from .fs import _ins, _rep, _app
+CIT = 'celma::common::detail::FixedStringIterator'
+MKIT = '#define CV_IT(o, i) ((i) == %s ? (o)->cend() : %s( (o), (i)))\n' % (NPOS, CIT)
+VALID = lambda i, n='g_len': '(%s == %s || %s < %s)' % (i, NPOS, i, n)
+P = lambda i, n='g_len': '(%s == %s ? %s : %s)' % (i, NPOS, n, i)
+RES_INV = ['R == %s || R < w_length(self)  /* returned iterator: End or a valid position of the new string */' % NPOS]
+
+
+def _dom(spec, extra):
+    d = dict(spec)
+    d['dom'] = '(%s) && (%s)' % (spec['dom'], extra)
+    return d
+
+
+def itm(ident, call, ret, args, raw, spec, dom10, ens10=()):
+    m = M(ident, '', ret, args, True, spec=spec, dom10=dom10)
+    m.raw = 'FS* o = static_cast<FS*>(self); ' + raw
+    m.call = call
+    m.ens10 = list(ens10)
+    OBS.append(m)
+
+
+itm('insert_it_c', 'insert( const_iterator pos, char ch)', 'z', [(Z, 'i1'), (C, 'ch')], 'return o->insert( CV_IT(o, i1), ch).mIndex;',
+    dict(_ins('1', 'ch'), dom=VALID('i1')).__class__(_dom(dict(_ins('1', 'ch')), VALID('i1'))), VALID('i1'), RES_INV)
+OBS[-1].spec = (lambda sp: {**sp, 'newlen': sp['newlen'].replace('index', P('i1')), 'expect': sp['expect'].replace('index', P('i1')), 'dom': VALID('i1')})(_ins('1', 'ch'))
+itm('insert_it_nc', 'insert( const_iterator pos, size_t count, char ch)', 'z', [(Z, 'i1'), (Z, 'count'), (C, 'ch')], 'return o->insert( CV_IT(o, i1), count, ch).mIndex;', None, VALID('i1'), RES_INV)
+OBS[-1].spec = (lambda sp: {**sp, 'newlen': sp['newlen'].replace('index', P('i1')), 'expect': sp['expect'].replace('index', P('i1')), 'dom': VALID('i1')})(_ins('count', 'ch'))
+ER1 = dict(dom=VALID('i1') + ' && i1 != ' + NPOS, newlen='(g_len - 1)', expect='((k) < i1 ? OLD(k) : OLD((k) + 1))')
+itm('erase_it', 'erase( const_iterator position)', 'z', [(Z, 'i1')], 'return o->erase( CV_IT(o, i1)).mIndex;', ER1, VALID('i1'), RES_INV)
+CNT2 = '(%s - %s)' % (P('i2'), P('i1'))
+ER2 = dict(dom='%s && %s && %s <= %s' % (VALID('i1'), VALID('i2'), P('i1'), P('i2')), newlen='(g_len - %s)' % CNT2,
+           expect='((k) < %s ? OLD(k) : OLD((k) + %s))' % (P('i1'), CNT2))
+itm('erase_it2', 'erase( const_iterator first, const_iterator last)', 'z', [(Z, 'i1'), (Z, 'i2')], 'return o->erase( CV_IT(o, i1), CV_IT(o, i2)).mIndex;', ER2,
+    VALID('i1') + ' && ' + VALID('i2'), RES_INV)
+RNG = '%s && %s && %s <= %s' % (VALID('i1'), VALID('i2'), P('i1'), P('i2'))
+itm('replace_it2_s', 'replace( const_iterator first, const_iterator last, const char* str)', 'r', [(Z, 'i1'), (Z, 'i2'), (S, 'str')],
+    'FS& cv_r = o->replace( CV_IT(o, i1), CV_IT(o, i2), str); return &cv_r == o;', _rep(P('i1'), CNT2, 'str_n', 'SRC(str,J)', dom=RNG), VALID('i1') + ' && ' + VALID('i2'))
+itm('replace_it2_sn', 'replace( const_iterator first, const_iterator last, const char* str, size_t count2)', 'r', [(Z, 'i1'), (Z, 'i2'), (S, 'str'), (Z, 'count2')],
+    'FS& cv_r = o->replace( CV_IT(o, i1), CV_IT(o, i2), str, count2); return &cv_r == o;', _rep(P('i1'), CNT2, 'count2', 'SRC(str,J)', dom=RNG + ' && count2 <= str_n'),
+    VALID('i1') + ' && ' + VALID('i2') + ' && count2 <= str_n')
+itm('replace_it2_cc', 'replace( const_iterator first, const_iterator last, size_t count2, char ch)', 'r', [(Z, 'i1'), (Z, 'i2'), (Z, 'count2'), (C, 'ch')],
+    'FS& cv_r = o->replace( CV_IT(o, i1), CV_IT(o, i2), count2, ch); return &cv_r == o;', _rep(P('i1'), CNT2, 'count2', 'ch', dom=RNG), VALID('i1') + ' && ' + VALID('i2'))
+PO = lambda i: P(i, 'other_n')
+itm('append_it2', 'append( const_iterator first, const_iterator last)', 'r', [(F, 'other'), (Z, 'i1'), (Z, 'i2')],
+    'FS& cv_r = o->append( CV_IT(&other, i1), CV_IT(&other, i2)); return &cv_r == o;',
+    dict(_app('(%s - %s)' % (PO('i2'), PO('i1')), 'SRC(other,%s + J)' % PO('i1')), dom='%s && %s && %s <= %s' % (VALID('i1', 'other_n'), VALID('i2', 'other_n'), PO('i1'), PO('i2'))),
+    '%s && %s && %s <= %s' % (VALID('i1', 'other_n'), VALID('i2', 'other_n'), PO('i1'), PO('i2')))
+RNGO = '%s && %s && %s <= %s' % (VALID('j1', 'other_n'), VALID('j2', 'other_n'), PO('j1'), PO('j2'))
+itm('replace_it2_ii', 'replace( const_iterator first, const_iterator last, iterator first2, iterator last2)', 'r', [(Z, 'i1'), (Z, 'i2'), (F, 'other'), (Z, 'j1'), (Z, 'j2')],
+    'FS& cv_r = o->replace( CV_IT(o, i1), CV_IT(o, i2), CV_IT(&other, j1), CV_IT(&other, j2)); return &cv_r == o;',
+    _rep(P('i1'), CNT2, '(%s - %s)' % (PO('j2'), PO('j1')), 'SRC(other,%s + J)' % PO('j1'), dom=RNG + ' && ' + RNGO), VALID('i1') + ' && ' + VALID('i2') + ' && ' + RNGO)
 OBSERVERS[:] = OBS
